@@ -1057,8 +1057,13 @@ class Process(StateMachine, persistence.Savable, metaclass=ProcessStateMachineMe
                         f'Full Traceback:\n{tb_str}'
                     ) from exc
                 else:
-                    while asyncio.isfuture(result):
-                        result = await result
+                    try:
+                        while asyncio.isfuture(result):
+                            result = await result
+                    except asyncio.CancelledError:
+                        # the action the requester waits for was cancelled (a pause undone by play): a cancelled reply, not silence
+                        kiwi_future.cancel()
+                        raise
 
                     kiwi_future.set_result(result)
 
